@@ -23,7 +23,7 @@ PID = 'C10'
 
 META = {
     'technique': 'branch-refined CFG reachability under "result != EB_ErrorNone" (error-leaves-loop), result-use analysis over can-fail summaries, dominance of bound comparisons over unsigned cursor arithmetic, limit-field consultation check for the bit reader',
-    'text': 'Decides four structural necessary conditions for "arbitrary bytes give an error return, never a hang or an over-read" in the decoder front end: a failing OBU/tile parse leaves every loop it was called from; no decoder error result is dropped; the remaining-size counter of the OBU walkers is never decreased by an unvalidated bitstream amount; the bit reader consults its end pointer. It does not decide subscripts computed from parsed syntax elements, nor the reconstruction kernels.',
+    'text': 'Decides four structural necessary conditions for "arbitrary bytes give an error return, never a hang or an over-read" in the decoder front end: a failing OBU/tile parse leaves every loop it was called from; no decoder error result is dropped; the remaining-size counter of the OBU walkers is never decreased by an unvalidated bitstream amount; the bit reader consults its end pointer. It does not decide subscripts computed from parsed syntax elements, nor the reconstruction kernels. Also decided: a sequence header that changes the geometry re-arms the memory initialisation through a real before/after comparison, and no *_rows quantity of the decoder is assigned the very expression of its *_cols twin.',
     'note': 'the bit reader (GET_BITS / dec_bits_init) never consults buf_max and the Annex-B / header advances are unchecked: recorded as known findings keyed by function and construct; assert() is not a test in the production configuration',
     'ref': 'DESIGN.md section 5 C10',
 }
@@ -365,3 +365,33 @@ def run(P, rep, tier):
             if F not in seenf:
                 rep.ob('C10.REINIT', 'decode_multiple_obu/re-arm:%s' % F.split('.')[1], False, dmo.loc(rv), 'the re-arm condition does not look at %s' % F)
     rep.floor('C10.REINIT', 1)
+
+    # ---------------- TRANSPOSE: copy-paste without transposition.  Where the decoder assigns a *_cols member / variable and, right
+    # after it, its *_rows twin (same spelling with rows<->cols, height<->width), the two right-hand sides must not be the very
+    # same expression when that expression itself names a row / column quantity: one of the two then has the wrong dimension
+    # (buffers sized for the wrong axis overflow on portrait or landscape pictures).
+    import re as _re
+    SW = {'rows': 'cols', 'cols': 'rows', 'row': 'col', 'col': 'row', 'height': 'width', 'width': 'height'}
+    tok = _re.compile(r'rows|cols|row|col|height|width')
+
+    def swap(s):
+        return tok.sub(lambda m: SW[m.group()], s)
+    ntr = 0
+    for f in P.fns:
+        if f.lib != 'Decoder' or f.nocfg or f in C.dead:
+            continue
+        for b in f.blocks.values():
+            sts = [ev for ev in b['ev'] if ev['k'] == 'st' and ev['e'][0] == 'a' and ev['e'][1] == '=' and strip(ev['e'][2])[0] in ('m', 'v')]
+            for a, c in zip(sts, sts[1:]):
+                ta, tc = pstr(strip(a['e'][2])), pstr(strip(c['e'][2]))
+                if ta == tc or swap(ta) != tc or not tok.search(ta):
+                    continue
+                ra, rc = pstr(strip(a['e'][3])), pstr(strip(c['e'][3]))
+                if not tok.search(ra + rc):
+                    continue
+                ntr += 1
+                same = ra == rc and swap(ra) != ra
+                rep.ob('C10.TRANSPOSE', '%s/%s~%s' % (f.name, ta[-40:], tc[-40:]), not same, f.loc(c),
+                       ('%s and %s are derived from transposed quantities' % (ta, tc)) if not same else
+                       ('%s and %s are both assigned %s: one of them is computed from the wrong dimension' % (ta, tc, ra[:80])))
+    rep.floor('C10.TRANSPOSE', 20)
